@@ -249,7 +249,7 @@ def canon_item(f, x, schema):
         return "N"
     if f.ty == "message":
         if f.wraps:
-            return canon_raw(f.wraps, x)
+            return canon_scalar(f.wraps, x)
         if f.kind == "ts":
             us = ts_us(x)
             return "TS%d" % us if us is not None else canon_raw(None, x)
@@ -430,8 +430,22 @@ def incl_neutral(schema):
 
 # ---------------------------------------------------------------- correspondence
 
+def py_ok(ty, x):
+    """x has the Python type a value of proto type ty has"""
+    if ty == "bool":
+        return isinstance(x, bool)
+    if ty in ("float", "double"):
+        return isinstance(x, float)
+    if ty == "string":
+        return isinstance(x, str)
+    if ty == "bytes":
+        return isinstance(x, (bytes, bytearray))
+    return isinstance(x, int) and not isinstance(x, bool)
+
+
 def wrong_typed_keys(m2, schema, ci, depth=0):
-    """a map whose keys do not have the Python type of its key type (bpgen's observer coerces them)"""
+    """a map / list / scalar holding values that do not have the Python type of the field (bpgen's observer
+    coerces them, e.g. int("5"))"""
     if depth > 6:
         return False
     md = schema[ci]
@@ -450,9 +464,18 @@ def wrong_typed_keys(m2, schema, ci, depth=0):
                 if f.mapV == "message" and f.mapVKind.startswith("u") and isinstance(x, betterproto.Message):
                     if wrong_typed_keys(x, schema, int(f.mapVKind[1:]), depth + 1):
                         return True
+                elif f.mapV != "message" and not py_ok(f.mapV, x):
+                    return True
         elif f.ty == "message" and not f.wraps and f.kind.startswith("u"):
             for x in (v if isinstance(v, list) else [v]):
                 if isinstance(x, betterproto.Message) and wrong_typed_keys(x, schema, int(f.kind[1:]), depth + 1):
+                    return True
+        elif f.ty == "message" and f.wraps:
+            if not py_ok(f.wraps, v):
+                return True
+        elif f.ty not in ("message", "map"):
+            for x in (v if isinstance(v, list) else [v]):
+                if not py_ok(f.ty, x):
                     return True
     return False
 
